@@ -51,9 +51,16 @@ def run_reference(case):
         out = []
         rec = {'out': out, 'end': 'exhausted', 'exc': None}
         try:
-            for x in ds:
+            it = iter(ds)
+            while True:
+                # like the scripted consumer: element take+1 is never requested
                 if take is not None and len(out) >= take:
                     rec['end'] = 'stopped'
+                    W.close_iter(it)
+                    break
+                try:
+                    x = next(it)
+                except StopIteration:
                     break
                 out.append(W.norm(x))
         except REFUSALS as e:
